@@ -152,14 +152,15 @@ def small_scope(ctx):
     hs = []
     base = {"tasks": [
         {"id": 0, "module": 0, "deps": [100], "prods": [110], "after": [], "marks": [], "beh": "ok", "style": "default"},
-        {"id": 1, "module": 1, "deps": [110], "prods": [111, 112], "after": [], "marks": [], "beh": "ok", "style": "annotated"},
-        {"id": 2, "module": 1, "deps": [], "prods": [113], "after": [1], "after_style": "expr", "marks": [], "beh": "ok", "style": "default"}],
-        "versions": {"0": 0, "1": 0}, "inputs": {"100": 7}}
-    edits = [[["write", 100, 8]], [["bump", 1]], [["write", 111, 4242]], [["delete", 112]], [["write", 110, 4343]], [["delete", 110]],
+        {"id": 1, "module": 1, "deps": [101, 110], "pyhash_deps": [101], "prods": [111, 112], "after": [], "marks": [], "beh": "ok", "style": "annotated"},
+        {"id": 2, "module": 1, "deps": [], "prods": [113], "after": [1], "after_style": "expr", "marks": [], "beh": "ok", "style": "default"},
+        {"id": 3, "module": 0, "deps": [110], "prods": [], "after": [], "marks": [], "beh": "ok", "style": "kwargs"}],
+        "versions": {"0": 0, "1": 0}, "inputs": {"100": 7, "101": 3}}      # node 101 is a hashed Python value (PythonNode(hash=True)) of task 1
+    edits = [[["write", 100, 8]], [["write", 101, 4]], [["bump", 1]], [["write", 111, 4242]], [["delete", 112]], [["write", 110, 4343]], [["delete", 110]],
              [["write", 113, 4444]], [["touch", 111]], [["delete", 111], ["write", 100, 9]], []]
     cfgs = [{}, {"force": True}, {"dry": True}, {"force": True, "dry": True}, {"k": "task_t00x"}, {"m": "persist"}]
     extra = [(), ((0, "skip"),), ((0, "early"),)]
-    subsets = [(1,), (0, 1), (1, 2), (0, 1, 2), (2,)]
+    subsets = [(1, 3), (0, 1), (1, 2), (0, 1, 2, 3), (2,), (3,)]
     if not ctx.thorough and ctx.budget == 1.0:
         subsets = subsets[:3]
     for sub in subsets:
@@ -191,11 +192,18 @@ def histories(ctx):
     rng = ctx.rng
     hs = small_scope(ctx)
     for i in range(ctx.scale(60, 900)):
-        spec = engine.gen_spec(rng, nt=(2, 6), after_p=0.25, after_needs_prods=True, user_markers=True, prodless_p=0.05,
+        spec = engine.gen_spec(rng, nt=(2, 6), after_p=0.25, after_needs_prods=True, user_markers=True, prodless_p=0.15,
                                behs=("ok",) * 7 + ("early",),
                                marks=(("persist", 0.45), ("skip", 0.06), ("skipif_true", 0.04), ("skipif_false", 0.08)))
         if not any("persist" in t["marks"] for t in spec["tasks"]):
             rng.choice(spec["tasks"])["marks"].append("persist")
+        ins = {int(k) for k in spec["inputs"]}
+        for t in spec["tasks"]:           # some dependencies on inputs are hashed Python values instead of files
+            hv = [d for d in t["deps"] if d in ins and rng.random() < 0.3]
+            if hv:
+                t["pyhash_deps"] = hv
+                if t["style"] == "return":
+                    t["style"] = "default"
         steps = [["build", {}]]
         for _ in range(rng.randint(1, 3)):
             for _ in range(rng.randint(0, 2)):
@@ -228,7 +236,8 @@ def nontrivial(h, recs):
 
 def run(ctx):
     ctx.rule = ("chains with every persist subset × {edit of input / source / product, deleted product, deleted dependency, touch, nothing} × "
-                "{plain, force, dry-run, -k, -m, skipped upstream, failing upstream} + random projects (≤ 6 tasks, persist on ~45 % of the tasks, skip / skipif / "
+                "{plain, force, dry-run, force + dry-run, -k, -m, skipped upstream, failing upstream}, incl. a dependency that is a hashed Python value "
+                "(PythonNode(hash=True)) and a persist task without products + random projects (≤ 6 tasks, persist on ~45 % of the tasks, skip / skipif / "
                 "failing tasks, user markers) with 1–3 rounds of edits and builds, each mostly followed by an immediate plain build; non-trivial = a task is "
                 "reported PERSISTENCE and reported again by a later build; distinct by (spec, steps)")
     STATS.clear()
